@@ -20,8 +20,11 @@ Types == UNION { [1..n -> Atoms] : n \in 0..MaxLen }
 ObD(a) == [k |-> "ob", name |-> a[1], z |-> a[2], dom |-> <<>>, cod |-> <<>>, dg |-> 0, data |-> 0]
 TyD(t) == [k |-> "ty", name |-> 0, z |-> 0, dom |-> t, cod |-> <<>>, dg |-> 0, data |-> 0]
 BoxD(id, dm, cd, dg, data) == [k |-> "box", name |-> id, z |-> 0, dom |-> dm, cod |-> cd, dg |-> dg, data |-> data]
+\* the empty formal sum (zero arrow) of a given type: its dom and cod are data, not derived from terms
+ZeroD(dm, cd) == [k |-> "zero", name |-> 0, z |-> 0, dom |-> dm, cod |-> cd, dg |-> 0, data |-> 0]
 SmallTypes == { t \in Types : Len(t) <= 1 }
 Descs == { ObD(a) : a \in Atoms } \cup { TyD(t) : t \in Types }
+         \cup { ZeroD(dm, cd) : dm \in SmallTypes, cd \in SmallTypes }
          \cup { BoxD(id, dm, cd, dg, data) : id \in 1..2, dm \in SmallTypes, cd \in SmallTypes, dg \in 0..1, data \in 0..2 }
 VARIABLE p
 Init == p \in { <<a, b>> : a \in Descs, b \in Descs }
